@@ -702,3 +702,17 @@ V('c14-z-only-move-reuses-decision', ['C14', 'C01'], [(S, """        anyExcluded
 V('c05-generated-amount-in-file-units', ['C05', 'C04'], [(R, """            amount = self.extrusionAmount * direction
 """, """            amount = self.extrusionAmount * direction / position.E_AXIS.unitMultiplier
 """)])
+# ---------------------------------------------------------------- round 12 rules
+AT = 'AtCommandAction.py'
+V('c07-params-regex-needs-blank', ['C07', 'C05'], [(R, '''GCODE_PARAMS_REGEX = re.compile("^[A-Za-z][0-9]+(?:\\\\.[0-9]+)?\\\\s*(.*)$")''',
+                                                     '''GCODE_PARAMS_REGEX = re.compile("^[A-Za-z][0-9]+(?:\\\\.[0-9]+)?(?:\\\\s+(.*))?$")''')])
+V('c14-matches-returns-matched-text', ['C14'], [(AT, """            return (self.parameterPattern is None) or self.parameterPattern.match(parameters)""",
+                                                 """            if (self.parameterPattern is None):
+                return True
+            match = self.parameterPattern.match(parameters)
+            return match.group(0) if match else False""")])
+V('n-matches-returns-bool', ['C14', 'C06'], [(AT, """            return (self.parameterPattern is None) or self.parameterPattern.match(parameters)""",
+                                              """            return (self.parameterPattern is None) or (self.parameterPattern.match(parameters) is not None)""")], neutral=True)
+V('c15-active-after-done-while-excluding', ['C15', 'C11'], [(P, """            self._logger.info("Printing stopped: event=%s", event)
+            self._activePrintJob = False""", """            self._logger.info("Printing stopped: event=%s", event)
+            self._activePrintJob = (event == Events.PRINT_DONE) and self.state.excluding""")])
